@@ -14,6 +14,19 @@ NOTES = {
     "C30": "**first missed**: model and monitor already expressed it, but the quick generator did not reach two live continuation points with a modification between them; a scripted generation (`Mode = \"script\"`) was added",
     "C14": "**first missed**: the first engine drives begin/end of the renewal directly; `RenewSend.tla` + engine `renewsend` (the real `AsyncSecureChannel::send` futures of several caller tasks, keys identified by token and nonce) were built because of this change",
     "C33": "**first missed**: needs two requests that SUCCEED in order (SetMonitoringMode Disabled, Call ResendData) before the tick; random sequences over the 34k-request universe never produced them; every pair of the `Live` set is now run",
+    "C12": "**first missed**: no history contained a message REFUSED by the sender (chunk / size limit) followed by further messages; `SeqNum.tla` got the refusal actions and the engine real limits",
+    "C13": "**first missed**: every derivation ran on fresh channel objects; `KeyDerivation.tla` now also has sequences of exchanges (issue + renewals) on ONE pair of objects, judged after every exchange (history independence)",
+    "C16": "**first missed**: only honest tokens and garbage ciphertexts were decrypted; `PasswordToken.tla` got crafted plaintexts (length prefix relative to the nonce length, nonces with leading zeros), correctly encrypted",
+    "C09": "**first missed**: the bogus-padding shape had no boundary values; `Totality.tla` got a pad-size family relative to the bytes in front of the signature, built with valid signature and encryption (one- and two-byte sizes)",
+    "C32": "**first missed**: no index range started at the length of the target, and a Good range write was judged only through the full read-back; ranges are now relative to the length, and the range is read back after the write",
+    "C25": "**first missed**: sequences were too short and lacked a value between two others within the deadband; value-only drift sequences were added",
+    "C35b": "**first missed**: the engine expired a request by moving its deadline into the past and could not see what the transport's timer was armed for; timeout classes and a hook reading the real `next_timeout` were added",
+    "C26b": "caught by the fine-clock generation that was added for it (one model unit = 0.2 ms): the coarse clock never produced a step of a fraction of a millisecond",
+    "C22b": "",
+    "C21b": "",
+    "C12b": "",
+    "C07b": "",
+    "C38": "the CreateSession error path on a secured channel was added to the recorded tasks shortly before this trial (error paths of the session services had not been recorded)",
     "C29": "the first trial ran into the 40 min limit under machine load after the verdicts had been found; repeated",
 }
 
